@@ -42,8 +42,9 @@ def build(rng, root, portable=True, ignored_dirs=True, big=False):
                 for k in range(rng.randrange(1, 3)):
                     put('%s/files/%s-%d.patch' % (d, p, k), b'--- a\n+++ b\n' + blob(200000 if big and rng.random() < 0.3 else 40))
                 if rng.random() < 0.4:
-                    mk(d + '/files/sub', 'pkgfiles-sub')
-                    put(d + '/files/sub/extra.conf', blob(20))
+                    sd = rng.choice(['sub', 'files', 'tmpfiles'])
+                    mk(d + '/files/' + sd, 'pkgfiles-sub')
+                    put(d + '/files/' + sd + '/extra.conf', blob(20))
     if rng.random() < 0.7:
         mk('eclass', 'eclass')
         for k in range(rng.randrange(0, 3)):
